@@ -16,7 +16,7 @@
 (* Serves C01 (Bracketed, BaseExcSurvives), C02 (StageOrder, Undone,       *)
 (* RerunSame), C03 (OutcomeSound), C05 (DetailsComplete, HandlersCalled).  *)
 (***************************************************************************)
-EXTENDS Naturals, Sequences, FiniteSets, TLC, Json, SequencesExt
+EXTENDS Naturals, Sequences, FiniteSets, TLC, Json, SequencesExt, RunTestDefs
 
 CONSTANTS
     Kinds,         \* exception kinds user code may raise (subset of AllKinds)
@@ -34,28 +34,6 @@ CONSTANTS
     OnExcChoices,  \* subset of BOOLEAN: with / without an addOnException handler
     StepOps,       \* non-final user operations explored in free mode
     Variant        \* "asRequired" | "asCoded": how Report selects the outcome
-
-None == "none"
-
-AllKinds == {"fail", "err", "skip", "xfail", "uxs", "ki", "exit",
-             "custom", "custom2", "subfail", "subskip", "subki", "skipobj"}
-BaseKinds == {"ki", "exit", "subki"}          \* do not derive from Exception
-
-\* The documented handler table (testcase.py:248-254), user-inserted handler first:
-\*   custom  = Exception subclass whose handler was inserted at the FRONT (reports a failure)
-\*   custom2 = Exception subclass whose handler was appended BEHIND (Exception, error): never fires
-Map(k) == CASE k \in {"fail", "subfail", "custom"} -> "failure"
-            [] k \in {"err", "custom2"} -> "error"
-            [] k \in {"skip", "subskip", "skipobj"} -> "skip"     \* skipobj: skipTest(reason) with a non-str reason
-            [] k = "xfail" -> "xfail"
-            [] k = "uxs" -> "uxsuccess"
-            [] k \in BaseKinds -> "error"
-
-Unsuccessful == {"failure", "error", "uxsuccess"}
-
-\* kinds for which the framework must attach a traceback detail (failures and errors; the
-\* assertion behind an expected failure).  skip / unexpected success: not required.
-NeedsTb(k) == Map(k) \in {"failure", "error"} \/ k = "xfail"
 
 StageUnits == {"setUp", "body", "tearDown"}
 SysUnit(u) == u \notin StageUnits /\ u \notin CleanupIds
@@ -383,17 +361,6 @@ ForceFail ==
                    attrs, rlog, outcomeHcalls, propagated, nfaults, nsteps, prev>>
 
 -----------------------------------------------------------------------------
-(* C03: the outcome-selection RELATION                                      *)
-Allowed(rs) ==
-    LET kinds == {rs[i].kind : i \in DOMAIN rs}
-        cands == {Map(k) : k \in kinds}
-    IN IF rs = <<>> THEN {"success"}
-       ELSE IF kinds \cap BaseKinds # {} THEN {"error"}
-       ELSE IF cands \cap {"failure", "error"} # {} THEN cands \cap Unsuccessful
-       ELSE cands
-
-MayPropagate(rs) == {rs[i].kind : i \in DOMAIN rs} \cap BaseKinds
-
 \* what the code does today: the LAST collected exception selects handler and propagation
 CodedOutcome(rs) == Map(rs[Len(rs)].kind)
 CodedPropagates(rs) == IF rs[Len(rs)].kind \in BaseKinds THEN {rs[Len(rs)].kind} ELSE {None}
@@ -455,7 +422,6 @@ Spec == Init /\ [][Next]_vars
 
 EventNames(l) == [i \in DOMAIN l |-> l[i].ev]
 IsPrefixOf(s, t) == Len(s) <= Len(t) /\ \A i \in DOMAIN s : s[i] = t[i]
-Bracket == <<"startTest", "outcome", "stopTest">>
 
 \* C01
 BracketedP(names, done) == IsPrefixOf(names, Bracket) /\ (done => names = Bracket)
